@@ -143,7 +143,7 @@ def sym_sqrt(interp, a, node=None, frame=None):
     a = to_real(a)
     if frame is None or frame.module.is_repo:
         loc = frame.module.loc(node) if frame is not None and node is not None else ""
-        interp.run.check(f"safety.sqrt_domain[{loc}]", a >= 0, kind="safety", loc=loc)
+        interp.run.check(f"safety.sqrt_domain[{interp.where(frame)}]", a >= 0, kind="safety", loc=loc)
     # one symbol per distinct argument term
     key = ("sqrt", a.get_id())
     cache = interp.run.__dict__.setdefault("_sqrt_cache", {})
@@ -490,6 +490,11 @@ def _written(interp, args, kwargs, node, frame):
     return sorted(v.written)
 
 
+@api("is_nan")
+def _is_nan(interp, args, kwargs, node, frame):
+    return hasattr(args[0], "sym_isnan")
+
+
 @api("is_same")
 def _is_same(interp, args, kwargs, node, frame):
     return args[0] is args[1]
@@ -511,6 +516,12 @@ def _len(interp, args, kwargs, node, frame):
         return v.length
     if hasattr(v, "sym_len"):
         return v.sym_len(interp, node)
+    if isinstance(v, SOpaque):
+        if "__len__" not in v.attrs:
+            n = interp.run.fresh_int(f"len({v.label})")
+            interp.run._add(n >= 0)
+            v.attrs["__len__"] = n
+        return v.attrs["__len__"]
     raise Unsupported(f"len of {type(v).__name__}", node)
 
 
@@ -652,6 +663,8 @@ def _float(interp, args, kwargs, node, frame):
     v = args[0]
     if is_z3(v):
         return to_real(v)
+    if hasattr(v, "sym_isnan"):
+        return v
     if isinstance(v, str):
         return float(v)
     if is_num(v) or isinstance(v, bool):
@@ -974,6 +987,8 @@ def _np_isnan(interp, args, kwargs, node, frame):
 @lib("numpy.isfinite")
 def _np_isfinite(interp, args, kwargs, node, frame):
     v = args[0]
+    if isinstance(v, float) and (v != v or v in (float("inf"), float("-inf"))):
+        return False
     if is_z3(v) or is_num(v):
         return True
     if hasattr(v, "sym_isfinite"):
@@ -1029,10 +1044,19 @@ def _t_ppf(interp, args, kwargs, node, frame):
     use(interp, "t.ppf")
     p, df = to_real(args[0]), to_real(args[1])
     loc = frame.module.loc(node)
-    interp.run.check(f"safety.t_ppf_domain[{loc}]", z3.And(df > 0, p > 0, p < 1), kind="safety", loc=loc)
+    interp.run.check(f"safety.t_ppf_domain[{interp.where(frame)}]", z3.And(df > 0, p > 0, p < 1), kind="safety", loc=loc)
     r = interp.run.fresh_real("tq")
     interp.run._add(z3.Implies(p * 2 >= 1, r >= 0))
     return r
+
+
+@lib("numpy.polyval")
+def _np_polyval(interp, args, kwargs, node, frame):
+    coefs, x = args
+    out = 0
+    for c in coefs:
+        out = interp.binop(ast.Add(), interp.binop(ast.Mult(), out, x, node, frame), c, node, frame)
+    return out
 
 
 @lib("numpy.float64", "numpy.float32")
